@@ -332,6 +332,33 @@ def dotted_table_family(r):
           'ext': ['aux', 'db1', 'store', '`store/edge`', 'store/edge', 'aux.edge', 'aux.node', 'db1.t']}
 
 
+def dependent_unnest_family(r):
+  """Several `in` conjuncts of one rule whose lists depend on each other, directly or through an aggregating
+  expression: every FROM item that mentions an alias must come after the item that introduces it."""
+  vs = ['zq%d' % i for i in range(1, 7)]
+  base = '%s in [%s]' % (vs[0], ', '.join(str(r.randint(1, 5)) for _ in range(r.choice([2, 3]))))
+  conj = [base]
+  shape = r.choice(['agg', 'agg', 'direct', 'chain', 'agg_chain'])
+  if shape == 'direct':
+    conj.append('%s in [%s, %s + 1]' % (vs[1], vs[0], vs[0]))
+    outs = [vs[0], vs[1]]
+  elif shape == 'chain':
+    conj.append('%s in [%s, %s + 1]' % (vs[1], vs[0], vs[0]))
+    conj.append('%s in [%s * 2, %s]' % (vs[2], vs[1], vs[0]))
+    outs = [vs[0], vs[1], vs[2]]
+  else:
+    op = r.choice(['List', 'List', 'Set'])
+    conj.append('%s %s= (%s * 10 + %s :- %s in [1, 2])' % (vs[3], op, vs[0], vs[4], vs[4]))
+    conj.append('%s in %s' % (vs[1], vs[3]))
+    outs = [vs[0], vs[1]]
+    if shape == 'agg_chain':
+      conj.append('%s in [%s, %s + %s]' % (vs[2], vs[1], vs[1], vs[0]))
+      outs.append(vs[2])
+  r.shuffle(conj)
+  text = 'M(%s) :- %s;\n' % (', '.join(outs), ', '.join(conj))
+  return {'text': text, 'pred': 'M', 'preds': ['M'], 'tags': ['family:dependent-unnest', 'in'], 'ext': []}
+
+
 def shared_with_family(r):
   """WITH-compiled chains shared by several parents (grounded predicates and the main one): every statement
   that mentions a WITH table must define it, and its own WITH dependencies, itself."""
